@@ -134,6 +134,53 @@ pub fn relative_matches(fs: &SimFs, bases: &[String], importer_name: &str, url: 
     found
 }
 
+/// The file (`None` = nothing) that a load of `url` from `importer_name` reaches under EVERY admissible
+/// reading of the resolution rule, i.e. over the product of
+///   * candidate order: grouped / pairwise import-only variants (only differs for `@import`),
+///   * search order inside a lookup round: directory-major / candidate-major (known finding F7),
+///   * where the importer-relative round looks: only in the base the importer lives in / in every base
+///     (known finding F6),
+/// with the importer-relative round first and the unchanged url second.  A generated url is
+/// unambiguous iff this set has exactly one element.
+pub fn winners_under_all_readings(
+    fs: &SimFs,
+    bases: &[String],
+    importer_base: usize,
+    importer_name: &str,
+    url: &str,
+    import: bool,
+) -> BTreeSet<Option<String>> {
+    let idir = importer_name.rfind('/').map_or("", |p| &importer_name[..=p]);
+    let rel = normalize(&format!("{idir}{url}"));
+    let unchanged = normalize(url);
+    let all: Vec<usize> = (0..bases.len()).collect();
+    let mut out = BTreeSet::new();
+    for grouped in [true, false] {
+        for cand_major in [false, true] {
+            for rel_everywhere in [true, false] {
+                let round = |u: &str, where_: &[usize]| -> Option<String> {
+                    let cs = candidates(u, import, grouped);
+                    if cand_major {
+                        cs.iter().find_map(|c| where_.iter().find_map(|b| fs.resolve(&bases[*b], c)))
+                    } else {
+                        where_.iter().find_map(|b| cs.iter().find_map(|c| fs.resolve(&bases[*b], c)))
+                    }
+                };
+                let own = [importer_base];
+                // an importer at the top of its base: relative and unchanged url coincide, one round everywhere
+                let first = if rel == unchanged { round(&rel, &all) } else { round(&rel, if rel_everywhere { &all } else { &own }) };
+                let w = match first {
+                    Some(w) => Some(w),
+                    None if rel != unchanged => round(&unchanged, &all),
+                    None => None,
+                };
+                out.insert(w);
+            }
+        }
+    }
+    out
+}
+
 #[cfg(test)]
 mod tests {
     use super::*;
